@@ -17,7 +17,7 @@ def run(chk):
                      VERIF_REPS="40" if thorough else "2"), timeout=1200)
     resf = os.path.join(wd, "c10_result.json")
     if not os.path.exists(resf):
-        raise vlib.MachineryError("C10 driver produced no result:\n" + t["out"][-3000:])
+        raise vlib.driver_failed("C10 driver produced no result", t["out"])
     res = json.load(open(resf))
     for v in res["violations"] or []:
         chk.violation(v["sig"], v["desc"], dict(kind="c10", detail=v))
